@@ -90,7 +90,7 @@ class Closure:
 
 class Frame:
     __slots__ = ('info', 'locals', 'enclosing', 'gen', 'first_arg', 'defcls', 'loop_counter', 'call_counter',
-                 'reduce_counter', 'reduce_site')
+                 'reduce_counter', 'reduce_site', 'loop_index')
 
     def __init__(self, info, locals_, enclosing, first_arg=None, defcls=None):
         self.info = info
@@ -103,6 +103,7 @@ class Frame:
         self.call_counter = 0
         self.reduce_counter = 0
         self.reduce_site = None
+        self.loop_index = {}
 
 
 class SuperProxy:
@@ -515,6 +516,10 @@ class Interp:
     # ======================================================================= attributes
     def getattr(self, obj, name):
         if isinstance(obj, Sym):
+            if isinstance(obj, SChoice) and all(isinstance(a, enum.Enum) for a in obj.alts) \
+                    and name in ('name', 'value', '_name_', '_value_'):
+                # plain data attribute of one of finitely many enum members: no case split needed
+                return SChoice(obj.idx, [getattr(a, name) for a in obj.alts])
             if isinstance(obj, (SOpt, SChoice)):
                 return self.getattr(self.resolve(obj), name)
             return SymMethod(obj, name)
